@@ -7,6 +7,7 @@ import (
 	"errors"
 	"fmt"
 	"go.uber.org/zap"
+	"go.uber.org/zap/zaptest/observer"
 	"log/slog"
 	"strings"
 	"time"
@@ -277,6 +278,48 @@ func mapLevel(l slog.Level) zapcore.Level {
 	return zapcore.DebugLevel
 }
 
+// sameKeys compares where things sit: the keys present at every object level of the expected tree
+// and of a context map (values are not compared; optional members may be absent).
+func sameKeys(exp *ref.Node, got map[string]interface{}, path string) string {
+	want := map[string]*ref.Node{}
+	optional := map[string]bool{}
+	for _, m := range exp.Members {
+		k := ref.Sanitize(m.Key)
+		want[k] = m.Val
+		if m.Optional {
+			optional[k] = true
+		}
+	}
+	have := map[string]interface{}{}
+	for k, v := range got {
+		have[ref.Sanitize(k)] = v
+	}
+	for k := range have {
+		if _, ok := want[k]; !ok {
+			return fmt.Sprintf("%s: unexpected key %q", path, k)
+		}
+	}
+	for k, n := range want {
+		g, ok := have[k]
+		if !ok {
+			if optional[k] {
+				continue
+			}
+			return fmt.Sprintf("%s: key %q is missing", path, k)
+		}
+		if n != nil && n.Kind == ref.KObj {
+			gm, isMap := g.(map[string]interface{})
+			if !isMap {
+				return fmt.Sprintf("%s.%s: want a group, got %T", path, k, g)
+			}
+			if m := sameKeys(n, gm, path+"."+k); m != "" {
+				return m
+			}
+		}
+	}
+	return ""
+}
+
 func runProgram(r *ev.Run, id string, i int) {
 	g := gen.New(rng.For(r.Seed, "c18", i), gen.Opts{Hostile: i%5 == 0})
 	st := &state{g: g, features: map[string]bool{}, uniqueKey: i%2 == 0}
@@ -311,6 +354,15 @@ func runProgram(r *ev.Run, id string, i int) {
 		sinkC = &rec.Sink{}
 		core = zapcore.NewTee(core, zapcore.NewCore(zapcore.NewConsoleEncoder(zapcore.EncoderConfig{MessageKey: "msg", EncodeTime: zapcore.EpochNanosTimeEncoder, EncodeDuration: zapcore.NanosDurationEncoder}), sinkC, coreEn))
 		r.Count("programs_with_console_core", 1)
+	}
+	// every third program also feeds an observer core (zaptest/observer, whose context map is built by
+	// zapcore.MapObjectEncoder): attributes must sit under the same groups there
+	var obsLogs *observer.ObservedLogs
+	if i%3 == 0 {
+		var oc zapcore.Core
+		oc, obsLogs = observer.New(coreEn)
+		core = zapcore.NewTee(core, oc)
+		r.Count("programs_with_observer_core", 1)
 	}
 	name := rng.Pick(rr, []string{"", "svc", "a.b"})
 	root := &hnode{id: 0, h: zapslog.NewHandler(core, zapslog.WithName(name), zapslog.AddStacktraceAt(slog.Level(100))), parent: -1, how: "root"}
@@ -390,6 +442,9 @@ func runProgram(r *ev.Run, id string, i int) {
 		sink.Reset()
 		if sinkC != nil {
 			sinkC.Reset()
+		}
+		if obsLogs != nil {
+			obsLogs.TakeAll()
 		}
 		if atom != nil && rr.P(1, 3) {
 			threshold = zapcore.Level(rr.Intn(5) - 1)
@@ -481,6 +536,18 @@ func runProgram(r *ev.Run, id string, i int) {
 		if err := ref.Compare(exp, v, repr, "$"); err != nil {
 			fail("slog-tree", "h%d (%s): entry differs from the slog contract's tree: %v; line=%s", n.id, n.how, err, ws[0])
 			return
+		}
+		if obsLogs != nil {
+			es := obsLogs.TakeAll()
+			if len(es) != 1 {
+				fail("slog-lost", "h%d: the observer core received %d entries for one record", n.id, len(es))
+				return
+			}
+			if m := sameKeys(body, es[0].ContextMap(), "$observer"); m != "" {
+				fail("slog-tree", "h%d (%s): in the observer core's context map the attributes do not sit under the groups of the slog contract's tree: %s; JSON line=%s", n.id, n.how, m, ws[0])
+				return
+			}
+			r.Count("observer_context_maps_compared", 1)
 		}
 		if sinkC != nil {
 			cs := sinkC.Writes()
